@@ -216,7 +216,7 @@ func check(prop, tier, only, repoDir, verifDir string, workers, par, seed int, d
 	paths, instrs := 0, 0
 	knownSeen := map[string]bool{}
 	reachOK := map[string]bool{}
-	probeBudget := 12
+	probeBudget := 40
 	for _, hr := range results {
 		paths += hr.Runs
 		instrs += hr.Instrs
